@@ -367,6 +367,14 @@ func C07Corpus() []*C7Prog {
 		{Name: "strings-fast", Src: "(if (= s0 \"s\") (q b1 b2) (h b1 b2 b3))", Vars: c7vars("s0", "b1", "b2", "b3"), Opt: ev(allOn, 1),
 			Calls: []C7Call{evalc("Eval#s", "s", true, false, true), evalc("Eval#t", "t", true, false, true), tryc("TryEval#b2-unavailable", []bool{true, true, false, true}, "t", true, true, true), insp[1]}},
 	}
+	// configured constants whose Go types are not the engine's own (plain int,
+	// int8, []int, a Duration): whatever the engine makes of them, it makes the
+	// same of them in every call, and never by rewriting the compiled program
+	for oi, o := range []drive.Opt{off, allOn} {
+		ps = append(ps, &C7Prog{Name: fmt.Sprintf("raw-typed-constants-%d", oi), Src: "(if (= n0 KINT) (+ KINT n1 KI8) (if (in n1 KLIST) (+ KDUR n0) (+ n0 KI8)))", Vars: c7vars("n0", "n1"), Opt: o,
+			Calls: []C7Call{evalc("Eval#eq", i64(12, 2)...), evalc("Eval#in", i64(5, 2)...), evalc("Eval#else", i64(5, 9)...),
+				tryc("TryEval#eq", nil, i64(12, 2)...), tryc("TryEval#in", nil, i64(5, 2)...), tryc("TryEval#n1-unavailable", []bool{true, false}, i64(12, 2)...), insp[0], insp[2]}})
+	}
 	// a variable-free program whose operator keeps per-request state in the
 	// evaluation context's own store; contexts without a fetcher and with
 	// their own fresh store
@@ -452,6 +460,10 @@ func C7Compile(p *C7Prog) (*eval.Expr, error) {
 	}
 	cfg.OperatorMap["rec"] = c7rec
 	cfg.OperatorMap["memo"] = c7memo
+	cfg.ConstantMap["KINT"] = int(12)
+	cfg.ConstantMap["KI8"] = int8(3)
+	cfg.ConstantMap["KLIST"] = []int{1, 2, 3}
+	cfg.ConstantMap["KDUR"] = 5 * time.Second
 	for i, v := range p.Vars {
 		cfg.VariableKeyMap[v.Name] = drive.KeyOf(i)
 	}
